@@ -14,6 +14,7 @@ import TB.Spec.LayoutSpec
 import TB.Spec.MetainfoSpec
 import TB.Streams
 import TB.StreamsRun
+import TB.StreamsExec
 open TB TB.Proto
 
 partial def loop (h : IO.FS.Stream) (out : IO.FS.Stream) : IO Unit := do
@@ -26,6 +27,9 @@ partial def loop (h : IO.FS.Stream) (out : IO.FS.Stream) : IO Unit := do
     | "run" :: rest =>
       let (req, obs) := TB.Streams.splitBar rest
       out.putStrLn (TB.Streams.handleRun req obs)
+    | "exec" :: rest =>
+      let (req, obs) := TB.Streams.splitBar rest
+      out.putStrLn (TB.Streams.handleExec req obs)
     | _ => out.putStrLn (TB.Streams.answer l)
   loop h out
 
